@@ -285,6 +285,9 @@ pub struct SdlStyle {
     pub use_extensions: bool,
     pub indent_tabs: bool,
     pub commas: bool,
+    /// 0 = none; otherwise a seed: unrelated custom directives are put on some fields, before or
+    /// after `@deprecated` (servers publish schemas with `@auth`, `@tag`, ... on fields)
+    pub directive_noise: u64,
 }
 
 impl Default for SdlStyle {
@@ -299,6 +302,7 @@ impl Default for SdlStyle {
             use_extensions: false,
             indent_tabs: false,
             commas: false,
+            directive_noise: 0,
         }
     }
 }
@@ -367,6 +371,10 @@ impl Schema {
         }
         out.push_str(": ");
         out.push_str(&self.render_type_expr(&f.ty));
+        let noise = if st.directive_noise == 0 { 3 } else { (crate::tape::fnv(f.name.as_bytes()) ^ st.directive_noise) % 4 };
+        if noise == 0 {
+            out.push_str(" @zzmeta(reason: \"not the deprecation reason\", level: 3)");
+        }
         if let Some(dep) = &f.deprecated {
             match dep {
                 None => out.push_str(" @deprecated"),
@@ -378,6 +386,9 @@ impl Schema {
                     }
                 }
             }
+        }
+        if noise == 1 {
+            out.push_str(" @zztag(name: \"deprecated\")");
         }
         if st.commas {
             out.push(',');
@@ -400,6 +411,9 @@ impl Schema {
             }
             s.push_str("}\n");
             defs.push((0, s));
+        }
+        if st.directive_noise != 0 && st.directive_noise % 2 == 0 {
+            defs.push((1, "directive @zzmeta(reason: String, level: Int) on FIELD_DEFINITION\ndirective @zztag(name: String) on FIELD_DEFINITION | OBJECT\n".to_string()));
         }
         for sc in &self.scalars {
             defs.push((1, format!("scalar {}\n", sc.name)));
